@@ -14,6 +14,7 @@
 
 #include <datatypes/msg_queue.h>
 #include <mm/msg_allocator.h>
+#include <verif/rsv.h>
 
 #include <mpi.h>
 
@@ -197,11 +198,13 @@ void mpi_remote_msg_handle(void)
 			MPI_Mrecv(msg_remote_data(msg), size, MPI_BYTE, &mpi_msg, MPI_STATUS_IGNORE);
 
 			gvt_remote_anti_msg_receive(msg);
+			RSV_EV(RSV_EV_REMOTE_RECV, msg, 1, status.MPI_SOURCE, msg->dest_t);
 		} else {
 			msg = msg_allocator_alloc(size - offsetof(struct lp_msg, pl) + msg_preamble_size());
 			MPI_Mrecv(msg_remote_data(msg), size, MPI_BYTE, &mpi_msg, MPI_STATUS_IGNORE);
 
 			gvt_remote_msg_receive(msg);
+			RSV_EV(RSV_EV_REMOTE_RECV, msg, 0, status.MPI_SOURCE, msg->dest_t);
 		}
 		msg_queue_insert(msg);
 	}
